@@ -48,6 +48,51 @@
 #include "crypto_aes.h"
 #include "crypto_aesctr.h"
 #include "refaes.h"
+#include "wrapalloc.h"
+
+/*
+ * Every other case (decided by a hash of the case line, so a replayed line
+ * behaves the same) the objects the library allocates - expanded keys, CTR
+ * streams - are handed out 8 mod 16, as a malloc that only guarantees 8-byte
+ * alignment does; the driver's own blocks stay 16-byte aligned.
+ */
+static int g_mis;
+
+static struct crypto_aes_key *
+mis_key_expand(const uint8_t * key, size_t len)
+{
+	struct crypto_aes_key * k;
+
+	wa_misalign(g_mis);
+	k = crypto_aes_key_expand(key, len);
+	wa_misalign(0);
+	return (k);
+}
+
+static struct crypto_aesctr *
+mis_aesctr_alloc(void)
+{
+	struct crypto_aesctr * s;
+
+	wa_misalign(g_mis);
+	s = crypto_aesctr_alloc();
+	wa_misalign(0);
+	return (s);
+}
+
+static struct crypto_aesctr *
+mis_aesctr_init(const struct crypto_aes_key * key, uint64_t nonce)
+{
+	struct crypto_aesctr * s;
+
+	wa_misalign(g_mis);
+	s = crypto_aesctr_init(key, nonce);
+	wa_misalign(0);
+	return (s);
+}
+#define crypto_aes_key_expand mis_key_expand
+#define crypto_aesctr_alloc mis_aesctr_alloc
+#define crypto_aesctr_init mis_aesctr_init
 
 /* Verification hook at the end of crypto/crypto_aesctr.c (LIBCPERCIVA_VERIF). */
 void crypto_aesctr_verif_seek(struct crypto_aesctr *, uint64_t);
@@ -455,6 +500,14 @@ main(void)
 		if (L.ntok == 0)
 			continue;
 		op = vh_tok(&L, 0);
+		{
+			uint64_t h = 0xcbf29ce484222325ULL;
+			size_t ti;
+
+			for (ti = 0; ti < L.ntok; ti++)
+				h = vh_fnv(h, vh_tok(&L, ti), strlen(vh_tok(&L, ti)) + 1);
+			g_mis = (int)((h >> 17) & 1);
+		}
 		if (op[0] == 'I') {
 			printf("R intr=%d\n", crypto_aes_can_use_intrinsics());
 		} else if (op[0] == 'B') {
